@@ -2,20 +2,42 @@ module verifharness
 
 go 1.21
 
-require massnet.org/mass v0.0.0
+require (
+	github.com/massnetorg/mass-core v0.0.0-20210816132538-be1c10e6c62a
+	massnet.org/mass v0.0.0
+)
 
 require (
+	github.com/btcsuite/btcd v0.20.1-beta // indirect
+	github.com/go-kit/kit v0.9.0 // indirect
+	github.com/go-logfmt/logfmt v0.4.0 // indirect
+	github.com/gogo/protobuf v1.3.1 // indirect
+	github.com/golang/groupcache v0.0.0-20191227052852-215e87163ea7 // indirect
+	github.com/golang/protobuf v1.4.2 // indirect
 	github.com/golang/snappy v0.0.1 // indirect
+	github.com/google/uuid v1.3.0 // indirect
+	github.com/grpc-ecosystem/grpc-gateway v1.14.5 // indirect
 	github.com/lestrrat/go-file-rotatelogs v0.0.0-20180223000712-d3151e2a480f // indirect
 	github.com/lestrrat/go-strftime v0.0.0-20180220042222-ba3bf9c1d042 // indirect
-	github.com/massnetorg/mass-core v0.0.0-20210816132538-be1c10e6c62a // indirect
+	github.com/massnetorg/tendermint v1.0.0 // indirect
+	github.com/orcaman/concurrent-map v0.0.0-20190314100340-2693aad1ed75 // indirect
+	github.com/panjf2000/ants/v2 v2.4.6 // indirect
 	github.com/pkg/errors v0.8.1 // indirect
 	github.com/rifflock/lfshook v0.0.0-20180920164130-b9218ef580f5 // indirect
+	github.com/shirou/gopsutil v3.21.5+incompatible // indirect
+	github.com/shopspring/decimal v1.2.0 // indirect
 	github.com/sirupsen/logrus v1.2.0 // indirect
 	github.com/syndtr/goleveldb v1.0.1-0.20210305035536-64b5b1c73954 // indirect
 	golang.org/x/crypto v0.0.0-20210322153248-0c34fe9e7dc2 // indirect
+	golang.org/x/net v0.0.0-20210226172049-e18ecbb05110 // indirect
 	golang.org/x/sys v0.0.0-20210420205809-ac73e9fd8988 // indirect
 	golang.org/x/term v0.0.0-20201126162022-7de9c90e9dd1 // indirect
+	golang.org/x/text v0.3.3 // indirect
+	google.golang.org/genproto v0.0.0-20200108215221-bd8f9a0ef82f // indirect
+	google.golang.org/grpc v1.26.0 // indirect
+	google.golang.org/protobuf v1.23.0 // indirect
+	gopkg.in/fatih/set.v0 v0.2.1 // indirect
+	gopkg.in/karalabe/cookiejar.v2 v2.0.0-20150724131613-8dcd6a7f4951 // indirect
 )
 
 replace massnet.org/mass => /repo
